@@ -101,7 +101,10 @@ func (f *Func) nonNilError(v ssa.Value, b *ssa.BasicBlock, depth int) (nonNil bo
 			allNonNil = allNonNil && nn
 			allNil = allNil && n
 		}
-		return allNonNil, allNil
+		if allNonNil || allNil {
+			return allNonNil, allNil
+		}
+		// a join of error values that is itself tested (`if err != nil` after an if/else assigning err): fall through
 	}
 	// guarded by `v != nil` on a dominating edge?
 	for _, g := range f.GuardsAt(b) {
